@@ -257,10 +257,15 @@ def _rtl(ctx, rng, st):
   layer = tfl.layers.RTL(**kw)
   B = 6
   feed = {}
-  if n_inc:
-    feed["increasing"] = tf.constant(rng.uniform(0, L - 1, size=(B, n_inc)).astype(np.float32))
-  if n_unc:
-    feed["unconstrained"] = tf.constant(rng.uniform(0, L - 1, size=(B, n_unc)).astype(np.float32))
+  keys = ["increasing", "unconstrained"]
+  if rng.rand() < .5:
+    keys = keys[::-1]          # the dict may be written in either key order
+  for key in keys:
+    if key == "increasing" and n_inc:
+      feed["increasing"] = tf.constant(rng.uniform(0, L - 1, size=(B, n_inc)).astype(np.float32))
+    if key == "unconstrained" and n_unc:
+      feed["unconstrained"] = tf.constant(rng.uniform(0, L - 1, size=(B, n_unc)).astype(np.float32))
+  ctx.cls("rtl:dict_order=" + ",".join(feed.keys()))
   y = layer(feed)
   for lay in layer._lattice_layers.values():
     for w in lay.weights:
